@@ -15,7 +15,7 @@ LEVEL_TEXT = ('partial proof over a heuristic scan. PROVED: the composition of p
               'source by an effect-site scan: for every history a caller-owned cell changes only under a call documented as '
               'in-place on that argument (induction over the history + decidable check of the generated table against the '
               'documented in-place list); the frame is slot- and attribute-specific (an in-place fit may write only what the plane holds through opd/tilt: '
-              'inplace_fit_never_writes_amplitude, inplace_writes_go_through_documented_attributes); plane-state confluence holds at model level (composed with C04); seeded functions never touch the global generator; the _dft2_coords cache always holds '
+              'inplace_fit_never_writes_amplitude, inplace_writes_go_through_documented_attributes); the inplace= gate of the heap model is REGENERATED (Gen/InplaceGate.lean: every function with an inplace parameter, its gate statement, its write sites classified by the name they go through) and proved to be the hand list of the model, to work on self.copy() when the flag is off and to have no write site that bypasses the gate variable (inplace_gate_follows_source); plane-state confluence holds at model level (composed with C04); seeded functions never touch the global generator; the _dft2_coords cache always holds '
               'arange(n)-floor(n/2) because nothing writes it, so results are history independent and a repeated call sees the same coordinates (repeated_call_sees_same_coordinates); the seed reaches every generator (seed_reaches_every_generator). SAMPLED, not proved: that each '
               'summary (a row of the scan) is right about what NumPy/Python actually do — random histories on frozen, byte-snapshotted '
               'caller arrays and objects, op labels resolved through the receiver class MRO to the function that Python will run (not traced); the scan\'s alias rule is a heuristic.')
@@ -24,16 +24,17 @@ LEVEL_NOTE = ('PARTIAL PROOF (category proof because Lean theorems carry the com
               'in-place list; that each summary is faithful is sampled by the correspondence; the scan\'s alias rule is a trusted '
               'heuristic. Plane-state confluence: theorem at model level (C04 composition), sampled on the real code.')
 TECHNIQUE = 'Lean 4 proof (induction over histories, decide +kernel on a regenerated effect table) + history-based differential correspondence'
-GEN = ['Effects', 'Extent', 'FftScratch', 'FieldDispatch', 'FieldIdx', 'FieldMerge', 'FourierWiring', 'Helper', 'Helper20', 'Hex', 'Mesh', 'PlanePhase', 'PlaneType', 'PropagateMeta', 'TiltFit', 'Util', 'Window']     # every Gen module the model, lemmas, theorems and driver ops import (transitively)
+GEN = ['Effects', 'Extent', 'FftScratch', 'FieldDispatch', 'FieldIdx', 'FieldMerge', 'FourierWiring', 'Helper', 'Helper20', 'Hex', 'InplaceGate', 'Mesh', 'PlanePhase', 'PlaneType', 'PropagateMeta', 'TiltFit', 'Util', 'Window']     # every Gen module the model, lemmas, theorems and driver ops import (transitively)
 OPS = ['C10']
-RULE = ('four seeded-repeat cases per run (seeds 0, 3, one < 2**31, one >= 2**32): shot_noise (both methods), read_noise, dark_current and rule07_dark_current with fpn_factor > 0 and power_spectrum are each called three times with identical arguments, with unrelated global-generator activity in between, and must agree bit for bit; one table-driven smoke case per run: every public function of the effect table is called once on fixtures chosen by parameter name (those the fixtures do not fit are listed by name in UNPROVEN on every run) and the changed argument slots / global generator are compared with its table row; cases: random histories (length 5..40) of public calls — plane/pupil construction from shared arrays, attribute updates, '
+RULE = ('earlier-result cases (8 per quick run, 60 per search): a monolithic or 2-segment pupil fitted 0..2 times, w1 = w*plane / plane.multiply(w) / w.__rmul__(plane) kept by the caller, then documented in-place work on the PLANE only (OPD update + fit_tilt(inplace=True), in-place OPD += then fit, append/clear on the plane tilt list); the tilt terms of every field of w1 and its propagate_dft image must stay bit-for-bit unchanged; four seeded-repeat cases per run (seeds 0, 3, one < 2**31, one >= 2**32): shot_noise (both methods), read_noise, dark_current and rule07_dark_current with fpn_factor > 0 and power_spectrum are each called three times with identical arguments, with unrelated global-generator activity in between, and must agree bit for bit; one table-driven smoke case per run: every public function of the effect table is called once on fixtures chosen by parameter name (those the fixtures do not fit are listed by name in UNPROVEN on every run) and the changed argument slots / global generator are compared with its table row; cases: random histories (length 5..40) of public calls — plane/pupil construction from shared arrays, attribute updates, '
         'fit_tilt (copy and in-place), copy, rescale, multiply, propagate_dft/fft (with scratch), Wavefront.insert/intensity, dft2/idft2 '
         'with repeated shapes and varying offsets/shifts and out=, adc/collect_charge/bayer/pixel/pixelate/charge_diffusion, seeded and '
         'unseeded noise models, jitter/smear, util.rescale/rebin/pad/normalize_power, power_spectrum/zernike, Spectrum arithmetic/sample/'
         'editing — on a pool of caller arrays that are snapshotted byte-for-byte and read-only unless a documented in-place target; '
         'earlier pure calls are re-executed later and compared bit-for-bit; plus plane-state confluence cases (two fit_tilt/update orders); '
         'distinct = (history seed, length); non-trivial = the history contains an in-place op, a repeated call and a shared array')
-TRUSTED = ['the alias rule of the effect-site scan (tools/specs/c10.py docstring): which expressions are views and which are fresh',
+TRUSTED = ['the inplace= gate scan recognises write sites syntactically (attribute/subscript assignment, augmented assignment, del, mutating method calls, out= keywords) on the gate variable or the parameter; a write through a further alias of either is left to the effect-site scan and the histories',
+           'the alias rule of the effect-site scan (tools/specs/c10.py docstring): which expressions are views and which are fresh',
            'byte-level snapshots + read-only flags observe every write NumPy performs on the tracked arrays; object cells are digested '
            'recursively over vars(obj) (every attribute, nested lentil objects, lists, dicts)',
            'np.random.get_state() captures the whole state of the global generator']
@@ -77,6 +78,11 @@ def generate(rng, tier):
         else:
             out.append({'kind': 'history', 'hseed': int(rng.integers(0, 2**31)), 'length': int(rng.integers(5, 41)),
                         'focus': FOCI[(k - k // 6) % len(FOCI)]})
+    # earlier results vs later in-place work on the plane (appended last: the streams above keep their draws)
+    for k in range({'quick': 8, 'thorough': 120, 'search': 60}[tier]):
+        out.append({'kind': 'earlier_result', 'hseed': int(rng.integers(0, 2**31)), 'segments': 1 if k % 4 else 2, 'n': int(rng.integers(10, 21)), 'm': int(rng.integers(10, 21)),
+                    'prefits': int(rng.integers(0, 3)) if k % 4 else 1, 'form': ['mul', 'multiply', 'rmul'][k % 3],
+                    'later': [['refit'], ['iadd_refit'], ['tilt_append'], ['refit', 'refit'], ['tilt_clear']][int(rng.integers(0, 5))]})
     return out
 
 def signature(c): return (c['kind'] + str(c.get('seed', ''))) if c['kind'] in ('smoke', 'seeded_repeat') else f"{c['kind']} {c.get('hseed', c.get('which'))} {c.get('length', '')} {c.get('focus', c.get('segments'))}"
@@ -731,6 +737,7 @@ def impl(c):
     if c['kind'] == 'smoke': return _smoke(c)
     if c['kind'] == 'witness': return _witness(c)
     if c['kind'] == 'confluence': return _confluence(c)
+    if c['kind'] == 'earlier_result': return _earlier_result(c)
     return _run_history(c)
 
 # ------------------------------------------------------------------------------------------ model
@@ -770,7 +777,55 @@ SMOKE_INPLACE = {('field.insert', 'out'), ('wavefront.Wavefront.insert', 'out'),
                  ('plane.Plane.fit_tilt', 'self'), ('propagate.propagate_fft', 'scratch')}
 SMOKE_EDIT = ('radiometry.Spectrum.', 'radiometry.Material.')       # the documented editing methods / setters change `self`
 
+def _earlier_result(c):
+    """w1 = w * plane is kept by the caller; LATER the plane alone is worked on in place (OPD update + fit_tilt(inplace=True), edits of the
+    plane's own tilt list): every observable of the earlier product must stay bit-for-bit what it was"""
+    lentil = vlib.import_lentil()
+    rng = np.random.default_rng(c['hseed'])
+    n, m, S = c['n'], c['m'], c['segments']
+    yy, xx = np.mgrid[0:n, 0:m]
+    base = ((yy - n // 2) ** 2 / (n / 2 - 1) ** 2 + (xx - m // 2) ** 2 / (m / 2 - 1) ** 2 <= 1).astype(float)
+    if S == 1: mask = base
+    else:
+        mask = np.zeros((S, n, m)); e = np.linspace(0, m, S + 1).astype(int)
+        for k in range(S): mask[k, :, e[k]:e[k + 1]] = base[:, e[k]:e[k + 1]]
+    def surf(): return base * (rng.uniform(-3, 3) * 1e-9 * (yy - n // 2) + rng.uniform(-3, 3) * 1e-9 * (xx - m // 2) + 1e-9 * rng.standard_normal((n, m)))
+    P = lentil.Pupil(amplitude=base, opd=surf(), mask=mask, pixelscale=PX, focal_length=10)
+    for k in range(c['prefits']):
+        if k: P.opd = P.opd + surf()
+        P.fit_tilt(inplace=True)
+    w = lentil.Wavefront(650e-9)
+    w1 = (w * P) if c['form'] == 'mul' else P.multiply(w) if c['form'] == 'multiply' else w.__rmul__(P)
+    def obs(wf):
+        return ([[(float(t.x), float(t.y)) for t in f.tilt] for f in wf.data],
+                lentil.propagate_dft(wf, pixelscale=5e-6, shape=24, oversample=2).intensity)
+    t0, i0 = obs(w1)
+    done = []
+    try:
+        for op_ in c['later']:
+            if op_ == 'refit': P.opd = P.opd + surf(); P.fit_tilt(inplace=True)
+            elif op_ == 'iadd_refit':
+                x = P.opd
+                if isinstance(x, np.ndarray) and x.flags.writeable and x.ndim == 2: x += surf()
+                else: P.opd = P.opd + surf()
+                P.fit_tilt(inplace=True)
+            elif op_ == 'tilt_append': P.tilt.append(lentil.Tilt(x=float(rng.uniform(-1, 1)) * 1e-6, y=float(rng.uniform(-1, 1)) * 1e-6))
+            elif op_ == 'tilt_clear': P.tilt.clear()
+            done.append(op_)
+    except Exception as ex:
+        return {'exc': f'{type(ex).__name__}: {ex}'[:160], 'done': done}
+    t1, i1 = obs(w1)
+    return {'tilt_same': t0 == t1, 'ntilt': [[len(x) for x in t0], [len(x) for x in t1]], 'img_diff': float(np.max(np.abs(i1 - i0)) / (np.max(i0) or 1.0)), 'peak': float(np.max(i0)),
+            'plane_ntilt': len(P.tilt), 'done': done}
+
 def oracle(c, io):
+    if c['kind'] == 'earlier_result':
+        if 'exc' in io: return f"in-place work on the plane after a product was taken raised {io['exc']} (after {io['done']})"
+        how = {'mul': 'w * plane', 'multiply': 'plane.multiply(w)', 'rmul': 'w.__rmul__(plane)'}[c['form']]
+        if not io['tilt_same']: return (f"the wavefront returned earlier by {how} changed when the plane was later worked on in place ({c['later']}): its fields had {io['ntilt'][0]} "
+                                        f"tilt terms, now {io['ntilt'][1]} — the result shares the plane's tilt list (a result must depend only on the arguments of its own call)")
+        if io['img_diff'] != 0: return f"the image of the wavefront returned earlier by {how} changed by {io['img_diff']:.3g} of its peak after later in-place work on the plane ({c['later']})"
+        return None
     if c['kind'] == 'seeded_repeat':
         for r in io['calls']:
             if 'exc' in r: return f"{r['fn']} with seed={c['seed']} raised {r['exc']}"
